@@ -1014,7 +1014,12 @@ def colorized_pyval_fallback(_: List[ParseError], doc:ParsedDocstring, __:model.
     """
     This fallback function uses L{ParsedDocstring.to_node()}, so it must be used only with L{ParsedDocstring} subclasses that implements C{to_node()}.
     """
-    return Tag('code')(node2stan.gettext(doc.to_node()))
+    try:
+        node = doc.to_node()
+    except NotImplementedError:
+        # A type taken from a docstring field has no node tree to read the text from.
+        return BROKEN
+    return Tag('code')(node2stan.gettext(node))
 
 def _format_constant_value(obj: model.Attribute) -> Iterator["Flattenable"]:
 
@@ -1052,7 +1057,7 @@ def _split_indentifier_parts_on_case(indentifier:str) -> List[str]:
         # We use \u200b as temp token to hack a split that passes the tests.
         return text.replace(sep, '\u200b'+sep).split('\u200b')
 
-    match = re.match('(_{1,2})?(.*?)(_{1,2})?$', indentifier)
+    match = re.match(r'(_{1,2})?(.*?)(_{1,2})?\Z', indentifier, re.DOTALL)
     assert match is not None # the regex always matches
     prefix, text, suffix = match.groups(default='')
     text_parts = []
